@@ -135,9 +135,24 @@ def run(src, tier, seed):
             continue
         seen.add(k)
         res.bad(r, 'protocol:%s:%s' % (f['name'], msg.split()[0]), fx.loc(f, ln), '%s: %s (entered with the chain closed, logging on)' % (f['name'], msg))
+    # root causes only: a function that still returns open when every callee (other than the listed openers) is taken as neutral
+    open_ids = [i for i in ctx.scope if 'O' in ctx.S[i]['C'] and fx.F[i]['name'] not in MAY_RETURN_OPEN]
+    roots = set()
+    if open_ids:
+        saved = ctx.S
+        ctx.S = {i: (saved[i] if fx.F[i]['name'] in MAY_RETURN_OPEN else {'C': {'C'}, 'O': {'O'}}) for i in ctx.scope}
+        for i in open_ids:
+            if 'O' in ctx.analyse(i, False)['C']:
+                roots.add(i)
+        ctx.S = saved
+        if not roots:
+            roots = set(open_ids)
     for i in ctx.scope:
         f = fx.F[i]
-        if 'O' in ctx.S[i]['C'] and f['name'] not in MAY_RETURN_OPEN:
+        if i in open_ids and i not in roots:
+            res.notes.append('%s inherits an open chain from a callee' % f['name'])
+            res.ok(r, f['name'])
+        elif i in roots:
             res.bad(r, 'returns-open:%s' % f['name'], fx.loc(f), '%s can return with a proof chain still open (a later beginChain would append to the stale chain)' % f['name'])
         else:
             res.ok(r, f['name'] if f['name'] in MAY_RETURN_OPEN or ctx.S[i] != {'C': {'C'}, 'O': {'O'}} else f['name'])
